@@ -54,6 +54,27 @@ extern "C" int __wrap_pthread_mutex_unlock(pthread_mutex_t * m)
   if (tl_buf && (char *)m >= g_lo && (char *)m < g_hi) {rec(2, 0, (char *)m - g_lo);}    // before it is released
   return __real_pthread_mutex_unlock(m);
 }
+// reader / writer locks (std::shared_mutex) inside the object count as its mutexes too
+extern "C" int __real_pthread_rwlock_wrlock(pthread_rwlock_t * m);
+extern "C" int __real_pthread_rwlock_rdlock(pthread_rwlock_t * m);
+extern "C" int __real_pthread_rwlock_unlock(pthread_rwlock_t * m);
+extern "C" int __wrap_pthread_rwlock_wrlock(pthread_rwlock_t * m)
+{
+  int r = __real_pthread_rwlock_wrlock(m);
+  if (tl_buf && (char *)m >= g_lo && (char *)m < g_hi) {rec(1, 0, (char *)m - g_lo);}
+  return r;
+}
+extern "C" int __wrap_pthread_rwlock_rdlock(pthread_rwlock_t * m)
+{
+  int r = __real_pthread_rwlock_rdlock(m);
+  if (tl_buf && (char *)m >= g_lo && (char *)m < g_hi) {rec(1, 0, (char *)m - g_lo);}
+  return r;
+}
+extern "C" int __wrap_pthread_rwlock_unlock(pthread_rwlock_t * m)
+{
+  if (tl_buf && (char *)m >= g_lo && (char *)m < g_hi) {rec(2, 0, (char *)m - g_lo);}
+  return __real_pthread_rwlock_unlock(m);
+}
 #else
 // without recording the observed values must still be USED, or the optimiser removes the reads ThreadSanitizer is meant to see
 static thread_local volatile long long tl_sink = 0;
@@ -143,7 +164,16 @@ struct Work
   std::atomic<bool> stop{false};
   std::atomic<bool> go{false};
   std::atomic<long long> lastStamp{0};
+  // calls completed by the writer(s): readers pace themselves on it (at most a few calls per writer call, plus a budget), so that a
+  // reader-preferring lock cannot starve the writer under eight spinning readers - and a writer that is stuck for good still hangs
+  std::atomic<long long> progress{0};
   int nthreads = 0;
+  bool pace(long long & mine)
+  {
+    if (mine > 6 * (progress.load(std::memory_order_relaxed) + 1) + 64) {std::this_thread::yield(); return false;}
+    ++mine;
+    return true;
+  }
 
   template<class F> void spawn(F f)
   {
@@ -178,13 +208,13 @@ static void runSV(Work & w)
   footprint(sv);
   w.bufs.reserve(16);
   w.spawn([&](vh::Rng &) {
-      for (long long k = 1; k <= w.ops; ++k) {inv(STORE, k); if (k % 2) {sv.store(Pair{k, ~k});} else {sv = Pair{k, ~k};} res(STORE);}
+      for (long long k = 1; k <= w.ops; ++k) {inv(STORE, k); if (k % 2) {sv.store(Pair{k, ~k});} else {sv = Pair{k, ~k};} res(STORE); ++w.progress;}
       w.stop = true;
     });
   for (int i = 0; i < w.readers; ++i) {
     w.spawn([&](vh::Rng &) {
         long long n = 0; Thinner th(w.ops / 8);
-        while (!w.stop) {th.begin(); inv(LOAD); Pair p = (++n % 2) ? sv.load() : static_cast<Pair>(sv); res(LOAD, p.a, p.b != ~p.a); th.end(false);}
+        for (long long mine = 0; !w.stop;) {if (!w.pace(mine)) {continue;}th.begin(); inv(LOAD); Pair p = (++n % 2) ? sv.load() : static_cast<Pair>(sv); res(LOAD, p.a, p.b != ~p.a); th.end(false);}
       });
   }
   w.join();
@@ -197,13 +227,13 @@ static void runSVW(Work & w)
   footprint(sv);
   w.bufs.reserve(16);
   w.spawn([&](vh::Rng &) {
-      for (long long k = 1; k <= w.ops; ++k) {inv(STORE, k); if (k % 2) {sv.store(k);} else {sv = k;} res(STORE);}
+      for (long long k = 1; k <= w.ops; ++k) {inv(STORE, k); if (k % 2) {sv.store(k);} else {sv = k;} res(STORE); ++w.progress;}
       w.stop = true;
     });
   for (int i = 0; i < w.readers; ++i) {
     w.spawn([&](vh::Rng &) {
         long long n = 0; Thinner th(w.ops / 8);
-        while (!w.stop) {th.begin(); inv(LOAD); long long v = (++n % 2) ? sv.load() : static_cast<long long>(sv); res(LOAD, v, 0); th.end(false);}
+        for (long long mine = 0; !w.stop;) {if (!w.pace(mine)) {continue;}th.begin(); inv(LOAD); long long v = (++n % 2) ? sv.load() : static_cast<long long>(sv); res(LOAD, v, 0); th.end(false);}
       });
   }
   w.join();
@@ -219,14 +249,14 @@ static void runSOV(Work & w)
   std::atomic<int> live{producers};
   for (int p = 0; p < producers; ++p) {
     w.spawn([&, p](vh::Rng &) {
-        for (long long k = 1; k <= w.ops / producers; ++k) {long long id = (p + 1) * 10000000LL + k; inv(STORE, id); sov.store(id); res(STORE);}
+        for (long long k = 1; k <= w.ops / producers; ++k) {long long id = (p + 1) * 10000000LL + k; inv(STORE, id); sov.store(id); res(STORE); ++w.progress;}
         if (--live == 0) {w.stop = true;}
       });
   }
   for (int c = 0; c < consumers; ++c) {
     w.spawn([&](vh::Rng &) {
         Thinner th(w.ops / 8);
-        while (!w.stop) {th.begin(); inv(CONSUME); auto v = sov.consume(); res(CONSUME, v ? *v : 0); th.end(v.has_value());}
+        for (long long mine = 0; !w.stop;) {if (!w.pace(mine)) {continue;}th.begin(); inv(CONSUME); auto v = sov.consume(); res(CONSUME, v ? *v : 0); th.end(v.has_value());}
       });
   }
   w.join();
@@ -251,17 +281,17 @@ static void runStats(Work & w, bool var)
           if constexpr (std::is_same_v<S, OnlineVariance>) {return bitsOf(replica.getVariance());} else {return Bits{0, 0, 0};}
         };
       for (long long k = 0; k < w.ops; ++k) {
-        if (r.coin(1, 40)) {replica.reset(); Bits b = seqVar(); inv(RESET, 0, b.hi, b.mid, b.lo); st->reset(); res(RESET); continue;}
+        if (r.coin(1, 40)) {replica.reset(); Bits b = seqVar(); inv(RESET, 0, b.hi, b.mid, b.lo); st->reset(); res(RESET); ++w.progress; continue;}
         long long q = r.range(-40, 40);
         replica.update((q / 4.0) * prec); Bits b = seqVar();
-        inv(UPDATE, q, b.hi, b.mid, b.lo); st->update((q / 4.0) * prec); res(UPDATE);
+        inv(UPDATE, q, b.hi, b.mid, b.lo); st->update((q / 4.0) * prec); res(UPDATE); ++w.progress;
       }
       w.stop = true;
     });
   for (int i = 0; i < w.readers; ++i) {
     w.spawn([&, i](vh::Rng & r) {
         Thinner th(w.ops / 8);
-        while (!w.stop) {
+        for (long long mine = 0; !w.stop;) {if (!w.pace(mine)) {continue;}
           th.begin();
           int what = (int)r.range(0, var ? 2 : 1);
           if (what == 0) {
@@ -299,11 +329,11 @@ static void runCheckup(Work & w, const std::string & ck, bool hasTimeout, bool n
   w.spawn([&](vh::Rng & r) {
       for (long long k = 0; k < w.ops; ++k) {
         if (hasTimeout && r.coin(1, 8)) {
-          if constexpr (!std::is_same_v<C, CheckupReliability>) {inv(TIMEOUT); c->timeout(); res(TIMEOUT);}
+          if constexpr (!std::is_same_v<C, CheckupReliability>) {inv(TIMEOUT); c->timeout(); res(TIMEOUT); ++w.progress;}
           continue;
         }
         long long v = r.range(0, 45);
-        inv(EVALUATE, v); DiagnosticStatus s = c->evaluate((double)v); res(EVALUATE, (int)s);
+        inv(EVALUATE, v); DiagnosticStatus s = c->evaluate((double)v); res(EVALUATE, (int)s); ++w.progress;
       }
       w.stop = true;
     });
@@ -320,14 +350,14 @@ static void runCheckup(Work & w, const std::string & ck, bool hasTimeout, bool n
     w.spawn([&](vh::Rng &) {
         tl_buf = nullptr;
         long long sink = 0;
-        while (!w.stop) {DiagnosticReport rep = other->getReport(); sink += (long long)rep.diagnostics.size() + (long long)rep.info.begin()->second.size();}
+        for (long long mine = 0; !w.stop;) {if (!w.pace(mine)) {continue;}DiagnosticReport rep = other->getReport(); sink += (long long)rep.diagnostics.size() + (long long)rep.info.begin()->second.size();}
         tl_sink_use(sink);
       });
   }
   for (int i = 0; i < w.readers; ++i) {
     w.spawn([&](vh::Rng &) {
         Thinner th(w.ops / 8);
-        while (!w.stop) {
+        for (long long mine = 0; !w.stop;) {if (!w.pace(mine)) {continue;}
           th.begin();
           inv(GETREPORT);
           DiagnosticReport rep = c->getReport();       // the copy a caller makes of what the getter hands out
@@ -349,7 +379,7 @@ static void stampLoop(Work & w, vh::Rng & r, const std::function<long long(Durat
     long long dt = ph == 0 ? 100 : ph == 1 ? r.range(50, 150) : ph == 2 ? r.range(1, 20) : r.range(100, 1500);
     now += dt;
     w.lastStamp = now;
-    inv(STAMP, now); long long ret = call(durationFromMilliSecond(now)); res(STAMP, ret);
+    inv(STAMP, now); long long ret = call(durationFromMilliSecond(now)); res(STAMP, ret); ++w.progress;
   }
   w.stop = true;
 }
@@ -371,7 +401,7 @@ static void runRM(Work & w)
   for (int i = 0; i < std::max(1, w.readers); ++i) {
     w.spawn([&](vh::Rng & r) {
         Thinner th(w.ops / 8);
-        while (!w.stop) {
+        for (long long mine = 0; !w.stop;) {if (!w.pace(mine)) {continue;}
           long long at = w.lastStamp + r.pick(std::vector<long long>{0, 100, 499, 500, 501, 900, 3000});
           th.begin(); inv(HB, at); bool to = rm->timeout(durationFromMilliSecond(at)); res(HB, to); th.end(to);
         }
@@ -394,7 +424,7 @@ static void runRC(Work & w, const std::string & ck)
     });
   w.spawn([&](vh::Rng & r) {
       Thinner th(w.ops / 8);
-      while (!w.stop) {
+      for (long long mine = 0; !w.stop;) {if (!w.pace(mine)) {continue;}
         long long at = w.lastStamp + r.pick(std::vector<long long>{0, 100, 499, 500, 501, 900, 3000});
         th.begin(); inv(HB, at); bool ok = rc->heartBeatCallback(durationFromMilliSecond(at)); res(HB, !ok); th.end(!ok);
       }
@@ -402,7 +432,7 @@ static void runRC(Work & w, const std::string & ck)
   for (int i = 0; i < w.readers; ++i) {
     w.spawn([&](vh::Rng &) {
         Thinner th(w.ops / 8);
-        while (!w.stop) {
+        for (long long mine = 0; !w.stop;) {if (!w.pace(mine)) {continue;}
           th.begin();
           inv(GETREPORT);
           DiagnosticReport rep = rc->getReport();
